@@ -178,7 +178,7 @@ func TestProp_Lifecycle(t *testing.T) {
 		c := lifecycleCase{
 			Mode:   rapid.SampledFrom([]string{"users", "users", "constant", "file"}).Draw(rt, "mode"),
 			Conc:   rapid.IntRange(1, 8).Draw(rt, "concurrency"),
-			Ending: rapid.SampledFrom([]string{"limit", "limit", "duration", "cancel", "completion-timeout"}).Draw(rt, "ending"),
+			Ending: rapid.SampledFrom([]string{"limit", "limit", "limit", "duration", "duration", "cancel", "cancel", "completion-timeout", "completion-timeout", "long-run-short-wait"}).Draw(rt, "ending"),
 			BodyUs: rapid.SampledFrom([]int{0, 0, 100, 1000}).Draw(rt, "bodyMicros"),
 		}
 		if c.Ending == "completion-timeout" && c.Mode != "constant" && vlib.KnownOpen("F11-users-trigger-ignores-completion-timeout") {
@@ -210,6 +210,11 @@ func TestProp_Lifecycle(t *testing.T) {
 			c.CancelMs = rapid.IntRange(0, 60).Draw(rt, "cancelMs")
 		case "completion-timeout":
 			c.DurMs = rapid.IntRange(30, 80).Draw(rt, "durationMs")
+		case "long-run-short-wait":
+			// the run lasts longer than the completion timeout; iterations in flight when triggering stops
+			// need a few ms, far less than the timeout, which therefore does not expire
+			c.DurMs = rapid.IntRange(1050, 1150).Draw(rt, "durationMs")
+			c.BodyUs = 5000
 		}
 
 		rec := &recorder{}
@@ -256,6 +261,9 @@ func TestProp_Lifecycle(t *testing.T) {
 		spec := &vlib.RunSpec{Mode: c.Mode, Flags: flags, FileYAML: yaml, FileDir: dir, ScenarioFn: scenario, Ctx: ctx, WaitTimeout: 20 * time.Second}
 		if c.Ending == "completion-timeout" {
 			spec.WaitTimeout = time.Duration(rapid.IntRange(30, 120).Draw(rt, "waitMs")) * time.Millisecond
+		}
+		if c.Ending == "long-run-short-wait" {
+			spec.WaitTimeout = time.Second
 		}
 		spec.Opts.Concurrency = c.Conc
 		spec.Opts.MaxDuration = time.Duration(c.DurMs) * time.Millisecond
